@@ -611,8 +611,9 @@ def reuse_family(rnd, quick):
         for rconn, qconn in (("-", "-"), ("close", "-"), ("-", "close"), ("keep-alive", "-")):
             for keep in ("drop", "handler"):
                 for read in ("none", "n:1"):
+                  for rbody in ({"k": "bytes", "chunks": [4]}, {"k": "empty"}, {"k": "body-stream", "chunks": [3, 3]}):
                     reqs = [{"m": "POST", "conn": qconn, "framing": framing}, {"m": "GET"}, {"m": "GET"}]
-                    progs = [{"pend": 0, "read": read, "keep": keep, "resp": {"status": 200, "conn": rconn, "body": {"k": "bytes", "chunks": [4]}}},
+                    progs = [{"pend": 0, "read": read, "keep": keep, "resp": {"status": 200, "conn": rconn, "body": rbody}},
                              ok_prog(read="none"), ok_prog(read="none")]
                     base = h1gen.assemble(reqs, progs, epilogue=False)
                     h = base["gt"][0]["headlen"]
@@ -635,7 +636,32 @@ def reuse_family(rnd, quick):
             c["origin"] = "reuse/error-response-blocked-socket"
             cases.append(c)
     if quick:
-        cases = rnd.sample(cases, 120)
+        cases = rnd.sample(cases, 200)
+    return cases
+
+
+def context_family(rnd, quick):
+    """C02: the framing of a response depends on its own request only - also when that request waited in the queue, its handler is
+    still pending, and a request with other attributes (HEAD, version, Connection) is decoded meanwhile."""
+    cases = []
+    kinds = [{"m": "GET"}, {"m": "HEAD"}, {"m": "GET", "ver": 10}, {"m": "GET", "ver": 10, "conn": "keep-alive"}, {"m": "GET", "conn": "close"}]
+    for a in kinds:
+        for b in kinds:
+            if a == b:
+                continue
+            reqs = [{"m": "GET"}, dict(a), dict(b)]
+            progs = [dict(ok_prog(read="none", n=3), pend=1), dict(ok_prog(read="none", n=7), pend=1), ok_prog(read="none", n=5)]
+            base = h1gen.assemble(reqs, progs, epilogue=False)
+            e2 = base["gt"][1]["end"]
+            # 1 and 2 arrive; 1 is answered, 2 is taken from the queue and its handler waits; 3 arrives; 2 is released
+            steps = [{"seg": e2}, {"tick": 10}, {"h": 1}, {"tick": 10}, {"seg": base["total"] - e2}, {"tick": 10}, {"h": 2}, {"tick": 10}]
+            for body2 in ({"k": "bytes", "chunks": [7]}, {"k": "body-stream", "chunks": [3, 4]}):
+                progs2 = [progs[0], dict(progs[1], resp=dict(progs[1]["resp"], body=body2)), progs[2]]
+                c = h1gen.assemble(reqs, progs2, steps=list(steps), epilogue=True)
+                c["origin"] = "context/queued-request-answered-after-a-later-one-was-decoded"
+                cases.append(c)
+    if quick:
+        cases = rnd.sample(cases, 24)
     return cases
 
 
